@@ -161,6 +161,24 @@ fn eq_pair(a: &K, b: &K) -> Option<bool> {
     })
 }
 
+/// the same comparison as Python makes it: `x.__eq__(CalType(y))` on the left operand's own class
+fn py_eq_pair(a: &K, b: &K) -> Option<bool> {
+    use rateslib::calendars::CalType;
+    if matches!((a, b), (K::C(_), K::C(_))) {
+        return None;
+    }
+    let other = match b {
+        K::C(y) => CalType::Cal(y.clone()),
+        K::U(y) => CalType::UnionCal(y.clone()),
+        K::N(y) => CalType::NamedCal(y.clone()),
+    };
+    Some(match a {
+        K::C(x) => x.verif_py_eq(other),
+        K::U(x) => x.verif_py_eq(other),
+        K::N(x) => x.verif_py_eq(other),
+    })
+}
+
 fn check_eq(ctx: &mut Ctx, a: &K, b: &K, label: &str, desc: Value) {
     let want = agree(&a.bits(), &b.bits());
     for (x, y, dir) in [(a, b, "a==b"), (b, a, "b==a")] {
@@ -179,6 +197,17 @@ fn check_eq(ctx: &mut Ctx, a: &K, b: &K, label: &str, desc: Value) {
             ctx.asserted(1);
             ctx.class(&format!("eq:{}=={}:{}", x.kind(), y.kind(), if want { "equal" } else { "unequal" }));
             ctx.class(&format!("eq-case:{}", label));
+            if let Caught::Ok(Some(p)) = guarded(|| py_eq_pair(x, y)) {
+                ctx.asserted(1);
+                ctx.class("python-layer:__eq__");
+                if p != want {
+                    ctx.violation(
+                        &format!("C06|python-layer|__eq__|{}|{}=={}|expected-{}", label, x.kind(), y.kind(), want),
+                        json!({"case": desc, "direction": dir, "observed": p, "expected_from_date_by_date_agreement_1970_2200": want}),
+                    );
+                    return;
+                }
+            }
             if r != want {
                 ctx.violation(
                     &format!("C06|eq|{}|{}=={}|expected-{}", label, x.kind(), y.kind(), want),
@@ -218,6 +247,7 @@ impl Prop for C06 {
         for k in ["Cal", "UnionCal", "NamedCal"] {
             v.push(format!("container:{}", k));
         }
+        v.push("python-layer:__eq__".to_string());
         v
     }
     fn min_evaluations(&self, tier: Tier) -> u64 {
